@@ -72,7 +72,9 @@ T2 == [params |-> <<[name |-> "x", opt |-> FALSE], [name |-> "xs", opt |-> FALSE
                     empty |-> Body(<<Tx("none")>>)],
                    Pr("p5", VarKey("ij", "who"), <<>>),
                    [k |-> "if", brs |-> <<[c |-> Bin("eq", Var("x"), ES("")), body |-> <<Tx("E")>>]>>,
-                    els |-> Body(<<Pr("p6", Var("x"), <<"escapeHtml">>)>>)],
+                    \* three directives: the parser's slice has spare capacity, where an
+                    \* append that does not copy first would write
+                    els |-> Body(<<Pr("p6", Var("x"), <<"escapeHtml", "id", "noAutoescape">>)>>)],
                    Tx("]") >>]
 
 T3 == [params |-> <<[name |-> "x", opt |-> FALSE], [name |-> "n", opt |-> FALSE]>>,
